@@ -20,6 +20,9 @@ def get_deps_paths() -> List[pathlib.Path]:
             "The {} environment variable was not set. Make sure your code is "
             "being executed by Conductor.".format(DEPS_ENV_VARIABLE_NAME)
         )
+    if len(os.environ[DEPS_ENV_VARIABLE_NAME]) == 0:
+        # This task has no dependencies (with outputs).
+        return []
     return list(
         map(
             pathlib.Path,
